@@ -3,9 +3,9 @@ import copy
 from common import cz, cbool, clist
 
 ID = 'C07'
-GEN_MODULES = ['Ident']
+GEN_MODULES = ['Ident', 'Classes']
 MODEL_TARGETS = ['coq/C07/Run.vo']
-PROOF_TARGETS = ['coq/C07/Proofs.vo']
+PROOF_TARGETS = ['coq/C07/Proofs.vo', 'coq/C07/CoreBridge.vo', 'coq/C07/CoreBridgeProofs.vo']
 PROPS_FILE = 'coq/Props/C07.v'
 RUN_MODULE = 'QCE.C07.Run'
 COQ_HEADER = 'From QCE Require Import C07.Model.\nFrom Gen Require Import Ident.'
